@@ -20,7 +20,7 @@ func init() {
 		Explanation: "Filter-list refresh. Decided: (D1) commit only on success: CloseReplace is called only where the `updated` flag is true; the flag handed to the finaliser is the function's own ok result, ok implies err == nil for the very error being returned, no transfer/parse error is overwritten with nil on the way, and the parser writes only into the pending file; " +
 			"(D2) an unchanged checksum never sets ok; (D3) list metadata (rule count, checksum, name) is written only after CloseReplace returned nil, when (re)loading the file, and when copying back a list that really was updated with matching ID and URL; (D4) a response is handed to the parser only for status 200 with a nil transport error. " +
 			"Not decided: the parser's normal form being a fixed point, HTML/binary detection, fault placement inside a body.",
-		RuleText: "Path guards and reaching-store resolution on SSA; writers of the metadata fields are enumerated over the whole module.",
+		RuleText:    "Path guards and reaching-store resolution on SSA; writers of the metadata fields are enumerated over the whole module.",
 		Assumptions: []string{"a failure of CloseReplace itself (rename/fsync error) is outside the enumerated faults"},
 		Trusted:     commonTrusted,
 	})
